@@ -27,6 +27,13 @@ Theorem C16_read_after_writes_partial : forall (s : cls_spec), In s flat_classes
 Proof. intros s Hs. apply read_after_writes_flat. apply flat_spec_of. exact Hs. Qed.
 Print Assumptions C16_read_after_writes_partial.
 
+(** the hypothesis "the overwrite succeeds" holds whenever the group path does not run through a dataset *)
+Theorem C16_overwrite_succeeds : forall (s : cls_spec), In s flat_classes ->
+  forall (o : obj) (f : file) (g : option str), wf_obj s o = true -> g <> Some [] ->
+  (forall gn, norm_group g = inl gn -> group_free f (split_path gn)) -> exists f', to_hdf5 true s f g o true = (f', None).
+Proof. intros s Hs o f g Hwf Hg Hfree. apply to_hdf5_succeeds; [apply flat_spec_of; exact Hs | exact Hwf | exact Hg | exact Hfree]. Qed.
+Print Assumptions C16_overwrite_succeeds.
+
 (** the constructor returns complete data unchanged, so "read back" is the object itself *)
 Theorem C16_construct_identity : forall s nt data,
   (plain_class s = true -> construct s nt data = inl data)
@@ -95,6 +102,14 @@ Print Assumptions C16_tables_copied_superset.
 Theorem C16_copy_equal : forall specs fuel deep h v h' v', closed h -> copy_hv specs fuel deep h v = Some (h', v') -> resolve1 h' v' = resolve1 h v.
 Proof. exact copy_hv_equal. Qed.
 Print Assumptions C16_copy_equal.
+
+(** __copy__ and __deepcopy__ of a whole object, any class table: attribute by attribute the copy observes the source's value *)
+Theorem C16_copy_equal_object : forall specs fuel deep s h o h' o',
+  closed h -> Forall (hv_lt (length h)) (map snd o) -> class_copy specs fuel deep s h o = Some (h', o') ->
+  Forall2 (fun c kv => fst kv = ctgt c /\ resolve1 h' (snd kv) = resolve1 h (hattr (csrc c) o))
+          (filter (fun c => negb (String.eqb (csrc c) "")) (if deep then dp_ctor s ++ dp_post s else cp_ctor s ++ cp_post s)) o'.
+Proof. exact class_copy_equal. Qed.
+Print Assumptions C16_copy_equal_object.
 
 (** __deepcopy__ of any class whose table has no shallow copy (nested classes deep-copy everything): the heap is only
     extended, the new region refers only to itself, every deep-copied attribute points into it *)
